@@ -926,7 +926,8 @@ def rule_round11(repo, rep):
             for st in ast.walk(fn):
                 if not (isinstance(st, ast.Assign) and isinstance(st.targets[0], ast.Name) and isinstance(st.value, ast.Call) and (call_name(st.value) or "").split(".")[-1] in ("Block", "Shape4D", "NpuShape3D")):
                     continue
-                mt = re.match(r"^(ifm2|ifm|ofm)_(shape|block)$", st.targets[0].id)
+                toks_ = st.targets[0].id.split("_")
+                mt = re.match(r"^(ifm2|ifm|ofm)$", toks_[0]) if len(toks_) >= 2 and toks_[1] in ("shape", "block") else None
                 if not mt:
                     continue
                 stems = set()
